@@ -30,7 +30,13 @@ if rnd > 1:
              '; in this round prefer plain logic slips inside the anchored functions themselves that matter only for particular '
              'parameter values: orders / widths / counts at their extremes (1, 2, the maximum), off-by-one at the first or last '
              'element, the wrong variable in one of several symmetric branches, sign and unit conventions, a rarely used but documented '
-             'keyword option, inputs that are already sorted / reversed / all equal, exactly representable boundary values' if rnd >= 5 else '') + '):\n' + '\n'.join(items) + '\n')
+             'keyword option, inputs that are already sorted / reversed / all equal, exactly representable boundary values' if rnd in (5, 6) else '') + (
+             '; in this round prefer changes that need a SEQUENCE or a COMBINATION to manifest: two code sites that each look fine alone '
+             '(e.g. a producer that changes a convention and a consumer that is only right for the old one on some inputs), a multi-step '
+             'sequence of calls on the same object or file, an error / early-return path taken at one particular step that leaves state '
+             'behind, an option that is only wrong together with another option or with one input shape / dtype / ordering, a helper in '
+             'another module whose rarely used branch the anchored code reaches only for special inputs, a numeric tolerance or epsilon '
+             'that only matters at one scale' if rnd >= 7 else '') + '):\n' + '\n'.join(items) + '\n')
 mech = '\n'.join('- %s (%s)' % (m['name'], m['where']) for m in p['anchors'].get('mechanism', []))
 task = f"""You are helping to evaluate a verification tool by writing realistic BUGS. You get one semantic property of the Python
 library weaverba137/pydl (Python ports of IDL astronomy routines) and a private git worktree of the library at {wt}
